@@ -415,6 +415,9 @@ def rule_sysinfo(ctx):
 
 
 def run(ctx):
+    # link-map names, handle link targets and the OS version string go through the shared string helper (same instance as C16/string)
+    from rules import c16
+    c16.rule_string(ctx, R="C18/strings")
     rule_stream_file_table(ctx)
     rule_meminfo(ctx)
     rule_handles(ctx)
